@@ -151,6 +151,14 @@ Verify(u, pw) ==
   /\ UNCHANGED state
 
 (***************************************************************************)
+(* exists(uid) -> bool                                                     *)
+(***************************************************************************)
+Exists(u) ==
+  /\ u \in UidArgs
+  /\ last' = [Blank EXCEPT !.op = "exists", !.u = u, !.res = IF u \in DOMAIN users THEN "true" ELSE "false"]
+  /\ UNCHANGED state
+
+(***************************************************************************)
 (* create_session(uid) / create_session_with_lifetime(uid, n)              *)
 (*   -> Ok(token) | UserNotFound | SessionAlreadyExists                    *)
 (***************************************************************************)
@@ -250,6 +258,7 @@ Next ==
   \/ \E pw \in Passwords : CreateUser(pw)
   \/ \E u \in UidDom : RemoveUser(u)
   \/ \E u \in UidDom, pw \in Passwords : Verify(u, pw)
+  \/ \E u \in UidDom : Exists(u)
   \/ \E u \in UidDom, l \in Lifetimes : CreateSession(u, l)
   \/ \E t \in TokDom : Refresh(t)
   \/ \E t \in TokDom : Invalidate(t)
@@ -289,6 +298,9 @@ P_Verify ==
   last'.op = "verify" =>
      (last'.res = "true" <=> (last'.u \in DOMAIN refpw /\ refpw[last'.u] = last'.pw))
 
+\* a user exists from its creation to its removal
+P_Exists == last'.op = "exists" => (last'.res = "true" <=> last'.u \in DOMAIN refpw)
+
 P_Token ==
   last'.op \in {"get_uid_by_token", "auth_route"} =>
      LET t == IF last'.op = "auth_route" THEN CookieToken(last'.ck, last'.tok) ELSE last'.tok
@@ -318,5 +330,5 @@ P_DeadToken ==
 \* uids never repeat
 P_CreateUser == last'.op = "create_user" => last'.ruid \notin created /\ last'.ruid # 0
 
-ResultsOK == [][P_Verify /\ P_Token /\ P_Refresh /\ P_CreateSession /\ P_DeadToken /\ P_CreateUser]_vars
+ResultsOK == [][P_Verify /\ P_Exists /\ P_Token /\ P_Refresh /\ P_CreateSession /\ P_DeadToken /\ P_CreateUser]_vars
 =============================================================================
